@@ -88,14 +88,17 @@ func generate(cfg *hx.Config) []hx.Case {
 		add(mk(fmt.Sprintf("q-fullS%d-SE1-cw-CC", n), stateScript("fullS", n), []string{"SE1", "cw:1:100000", "CC", "SC"}), "fullS", "SE1,cw,CC,SC")
 	}
 	// 4. races: the release is in progress while the other side ends / the proxy shuts down
-	big := 1500
+	bigs := []int{600, 1500, 3000}
 	if cfg.Thorough() {
-		big = 6000
+		bigs = []int{300, 600, 1000, 1500, 2200, 3000, 4500, 6000}
 	}
-	add(mk("x-fullC-sw+CC", stateScript("fullC", big), []string{"sw:1:100000+CC"}), "fullC", "sw+CC")
-	add(mk("x-fullS-cw+SC", stateScript("fullS", big), []string{"cw:1:100000+SC"}), "fullS", "cw+SC")
-	add(mk("x-fullC-sw+CL", stateScript("fullC", big), []string{"sw:1:100000+CL"}), "fullC", "sw+CL")
-	add(mk("x-fullC-sw+CE1", stateScript("fullC", big), []string{"sw:1:100000+CE1"}), "fullC", "sw+CE1")
+	for _, big := range bigs {
+		add(mk(fmt.Sprintf("x-fullC%d-sw+CC", big), stateScript("fullC", big), []string{"sw:1:100000+CC"}), "fullC", "sw+CC")
+		add(mk(fmt.Sprintf("x-fullS%d-cw+SC", big), stateScript("fullS", big), []string{"cw:1:100000+SC"}), "fullS", "cw+SC")
+		add(mk(fmt.Sprintf("x-fullC%d-sw+CL", big), stateScript("fullC", big), []string{"sw:1:100000+CL"}), "fullC", "sw+CL")
+		add(mk(fmt.Sprintf("x-fullC%d-sw+CE1", big), stateScript("fullC", big), []string{"sw:1:100000+CE1"}), "fullC", "sw+CE1")
+		add(mk(fmt.Sprintf("x-fullS%d-cw+SE1", big), stateScript("fullS", big), []string{"cw:1:100000+SE1"}), "fullS", "cw+SE1")
+	}
 	// 5. controls: nothing that ends the session has happened, the relay must stay up
 	add(mk("c-idle", stateScript("idle", 0), []string{"cp", "sp"}), "idle", "none")
 	add(mk("c-mid-armed", stateScript("mid", 0), []string{"WFC", "cp"}), "mid", "none(WFC armed, no write toward the client)")
